@@ -29,6 +29,9 @@ func (fr *Frame) call(x *ssa.Call) {
 	if len(res.C) != len(l.leaves) {
 		res = fr.freshVal(fr.sym(x), x.Type(), fr.cur.reach, fr.cur.st)
 	}
+	if fr.q.opts.AfterCall != nil && fr.cur.reach != "false" {
+		fr.q.opts.AfterCall(fr, x, c, c.StaticCallee(), args, res)
+	}
 	if fr.cur.reach != "false" {
 		fr.setVal(x, res)
 	} else {
@@ -76,7 +79,7 @@ func (fr *Frame) doCall(ins ssa.Instruction, c *ssa.CallCommon, args []Val, rt t
 	}
 	if callee == nil {
 		q.note("dynamic call in " + fnKey(fr.fn))
-		q.havocAll(st)
+		fr.havocMod(st, &ModSet{All: true})
 		return fr.freshVal(fr.prefix+"_dyn", rt, fr.cur.reach, st), true
 	}
 	if q.opts.OnCall != nil {
@@ -209,7 +212,9 @@ func (fr *Frame) modularCall(ins ssa.Instruction, callee *ssa.Function, ct *Cont
 			continue
 		}
 		txt := fmt.Sprintf("%s#%d:%s", fnKey(callee), k, r.Text)
-		q.addObligation(fr, "pre", txt, ins.Pos(), fr.cur.reach, t)
+		if q.opts.checksTag(r.Tag) {
+			q.addObligation(fr, "pre", txt, ins.Pos(), fr.cur.reach, t)
+		}
 		q.assume(fr.cur.reach, t)
 	}
 	pre := st.clone()
@@ -225,7 +230,9 @@ func (fr *Frame) modularCall(ins ssa.Instruction, callee *ssa.Function, ct *Cont
 	for i, en := range ct.Ensures {
 		t, err := env.evalBool(en.Expr)
 		if err != nil {
-			q.note(fmt.Sprintf("contract of %s: ensures %d: %v", fnKey(callee), i, err))
+			if !ct.Default {
+				q.note(fmt.Sprintf("contract of %s: ensures %d: %v", fnKey(callee), i, err))
+			}
 			continue
 		}
 		q.assume(fr.cur.reach, t)
@@ -378,7 +385,7 @@ func (fr *Frame) builtin(ins ssa.Instruction, b *ssa.Builtin, c *ssa.CallCommon,
 			return Val{C: []string{sIte("(>= "+a+" "+bb+")", a, bb)}}
 		}
 	case "clear":
-		q.havocAll(st)
+		fr.havocMod(st, &ModSet{All: true})
 		return Val{}
 	}
 	q.note("unmodelled builtin " + b.Name())
@@ -448,7 +455,7 @@ func (fr *Frame) copyB(ins ssa.Instruction, c *ssa.CallCommon, args []Val) Val {
 	st := fr.cur.st
 	sl, ok := underlying(c.Args[0].Type()).(*types.Slice)
 	if !ok {
-		q.havocAll(st)
+		fr.havocMod(st, &ModSet{All: true})
 		return fr.freshVal("copy", types.Typ[types.Int], fr.cur.reach, st)
 	}
 	el := sl.Elem()
